@@ -3,8 +3,11 @@ import RawPanelVerif.Lemmas.NetFeed
 # C12 — protocol auto-detection classifies binary and ASCII panels correctly
 
 Property theorems only.  `classifyClient` mirrors connecttopanel.go 90-130, `classifyDetector` mirrors
-rawpanelhelpers.go 701-738 (Model/Net.lean); a `Reply` is what the single `Read` after the probe returns.  All
-statements are for arbitrary reply bytes (no bound other than the 1000-byte reply buffer where it matters).
+rawpanelhelpers.go 714-751 (Model/Net.lean); a `Reply` is what the single `Read` after the probe returns, and
+`replyOf timeout delay reply closes buf` says which `Reply` that is when the panel answers `delay` ms after the probe:
+`clientReply` / `detectorReply` instantiate it with the probe deadlines and buffer sizes regenerated from the two
+sources (`Gen.clientProbeTimeoutMs`, `Gen.detectorProbeTimeoutMs`, …).  All statements are for arbitrary reply
+bytes (no bound other than the 1000-byte reply buffer where it matters).
 
 * `probe_bytes`                       the probe is the one frame `02 00 00 00 08 01` (given `marshal ping = 08 01`)
 * `classifyClient_iff`                binary ⇔ more than 4 bytes and the length prefix + 4 equals the byte count
@@ -12,8 +15,27 @@ statements are for arbitrary reply bytes (no bound other than the 1000-byte repl
 * `ack_frame_is_binary_both`          one well-formed frame that fits the buffer ⇒ binary, nothing written, both
 * `silence_rdy_map_are_ascii_both`    silence, `RDY\n…`, `map=…` ⇒ ASCII and exactly one LF written, both
 * `client_any_other_text_is_ascii`    client: any reply without NUL bytes ⇒ ASCII, one LF
-* `errormsg_extracted`                client: `ErrorMsg=<text>` (up to the first LF or the end) ⇒ `<text>` to onconnect
-* `entry_points_differ_example`       where the two legitimately differ (short non-text reply), for the record
+Timing ("however long (below 2 s) it takes", "silent for the probe window"):
+* `timeouts_are_two_seconds`          both regenerated probe deadlines are the 2000 ms the property speaks of
+* `late_is_silence`                   a reply that comes at or after the probe deadline is not seen: the verdict is
+                                      that of silence (ASCII, exactly one LF), for both entry points
+* `ack_before_timeout_is_binary`      an acknowledge frame (any well-formed frame that fits) at any delay below the
+                                      deadline ⇒ binary, nothing written, both entry points
+* `entry_points_see_same_reply`, `entry_points_agree_before_min_timeout`   below the smaller of the two deadlines both
+                                      entry points see the same `Reply`, and for the replies the property names
+                                      (frame, silence, `RDY\n…`, `map=…`) reach the same verdict and write the same
+* `between_timeouts_disagree`         (for arbitrary deadlines) a reply between two different deadlines is silence for
+                                      the one and data for the other: what shortening one deadline would break
+Error text:
+* `errormsg_extracted`, `errormsg_passed_to_onconnect` (LF-terminated), `errormsg_passed_to_onconnect_unterminated`
+                                      client: `ErrorMsg=<text>` up to the first LF or the end ⇒ `<text>` to onconnect
+* `errormsg_absent`                   no `ErrorMsg=` at the start of the reply (or no reply, or a binary verdict) ⇒ ""
+Observations outside the domain (the property ranges over reply class × delay × entry point, not over how TCP cuts
+the reply; decision of the project lead: documented, not judged; the monitor skips replies sent in several writes):
+* `split_ack_disagree`                an acknowledge frame whose first segment has k bytes, 0 < k < 6 (e.g. header and
+                                      payload written separately): the client says ASCII and writes a LF, the detector
+                                      says binary.  Reproduced on the real client (`net.c12c … w02000000 s300 w0802`).
+* `entry_points_differ_example`       a short non-text reply: the two entry points legitimately differ
 -/
 namespace RawPanelVerif.C12
 open RawPanelVerif RawPanelVerif.Net
@@ -232,14 +254,10 @@ theorem errormsg_extracted (msg rest : Bytes) (hmsg : (10 : UInt8) ∉ msg) :
   · simp only [extractErrorMsg, beforeLF_noLF _ hp, hasPrefix_append, if_true]
     exact List.drop_left' h9
 
-/-- … and that text is what `classifyClient` returns for such a reply (no NUL bytes, fits the buffer) -/
-theorem errormsg_passed_to_onconnect (msg rest : Bytes) (hmsg : (10 : UInt8) ∉ msg)
-    (hfit : (errorMsgPrefix ++ msg ++ 10 :: rest).length ≤ Gen.clientProbeBuf)
-    (htext : ∀ c ∈ errorMsgPrefix ++ msg ++ 10 :: rest, c ≠ 0) :
-    classifyClient (.bytes (errorMsgPrefix ++ msg ++ 10 :: rest)) = ⟨false, [lf], msg⟩ := by
+/-- the client's verdict on any text reply that fits the buffer: ASCII, one LF, and the extracted error text -/
+theorem client_text_verdict (B : Bytes) (hfit : B.length ≤ Gen.clientProbeBuf) (htext : ∀ c ∈ B, c ≠ 0) :
+    classifyClient (.bytes B) = ⟨false, [lf], extractErrorMsg B⟩ := by
   have h := (client_any_other_text_is_ascii _ hfit htext).1
-  have he := (errormsg_extracted msg rest hmsg).1
-  generalize errorMsgPrefix ++ msg ++ 10 :: rest = B at h he
   have hn : ¬ (B.length > 4 ∧ (le32 B + 4) % 4294967296 = B.length) := by
     intro hc
     have := (classifyClient_iff B).mpr hc
@@ -247,8 +265,154 @@ theorem errormsg_passed_to_onconnect (msg rest : Bytes) (hmsg : (10 : UInt8) ∉
     exact Bool.noConfusion this
   by_cases h1 : B.length > 4
   · have h2 : ¬ (le32 B + 4) % 4294967296 = B.length := fun e => hn ⟨h1, e⟩
-    simp [classifyClient, h1, h2, he]
-  · simp [classifyClient, h1, he]
+    simp [classifyClient, h1, h2]
+  · simp [classifyClient, h1]
+
+/-- … `ErrorMsg=<text>` followed by LF and anything: `<text>` is handed to `onconnect` -/
+theorem errormsg_passed_to_onconnect (msg rest : Bytes) (hmsg : (10 : UInt8) ∉ msg)
+    (hfit : (errorMsgPrefix ++ msg ++ 10 :: rest).length ≤ Gen.clientProbeBuf)
+    (htext : ∀ c ∈ errorMsgPrefix ++ msg ++ 10 :: rest, c ≠ 0) :
+    classifyClient (.bytes (errorMsgPrefix ++ msg ++ 10 :: rest)) = ⟨false, [lf], msg⟩ := by
+  rw [client_text_verdict _ hfit htext, (errormsg_extracted msg rest hmsg).1]
+
+/-- … and the unterminated form `ErrorMsg=<text>` (the reply ends without a LF): `<text>` all the same -/
+theorem errormsg_passed_to_onconnect_unterminated (msg : Bytes) (hmsg : (10 : UInt8) ∉ msg)
+    (hfit : (errorMsgPrefix ++ msg).length ≤ Gen.clientProbeBuf) (htext : ∀ c ∈ errorMsgPrefix ++ msg, c ≠ 0) :
+    classifyClient (.bytes (errorMsgPrefix ++ msg)) = ⟨false, [lf], msg⟩ := by
+  rw [client_text_verdict _ hfit htext, (errormsg_extracted msg [] hmsg).2]
+
+/-- **no error text where there is none**: a reply whose first line does not start with `ErrorMsg=` (any bytes, any
+length), no reply at all, or a reply classified binary: the error text handed to `onconnect` is empty -/
+theorem errormsg_absent :
+    (∀ b : Bytes, hasPrefix (beforeLF b) errorMsgPrefix = false → (classifyClient (.bytes b)).errorMsg = []) ∧
+    (classifyClient .timeout).errorMsg = [] ∧ (classifyClient .error).errorMsg = [] ∧
+    (∀ r, (classifyClient r).binary = true → (classifyClient r).errorMsg = []) := by
+  refine ⟨?_, rfl, rfl, ?_⟩
+  · intro b hb
+    have he : extractErrorMsg b = [] := by simp [extractErrorMsg, hb]
+    unfold classifyClient
+    by_cases h1 : b.length > 4
+    · by_cases h2 : (le32 b + 4) % 4294967296 = b.length
+      · simp [h1, h2]
+      · simp [h1, h2, he]
+    · simp [h1, he]
+  · intro r hr
+    cases r with
+    | timeout => rfl
+    | error => rfl
+    | bytes b =>
+      obtain ⟨h1, h2⟩ := (classifyClient_iff b).mp hr
+      simp [classifyClient, h1, h2]
+
+/-! ### timing -/
+
+/-- the two probe deadlines regenerated from the sources are the "2 s" of the property -/
+theorem timeouts_are_two_seconds : probeTimeout = 2000 ∧ detectorTimeout = 2000 := ⟨rfl, rfl⟩
+
+/-- **a late reply is silence**: whatever the panel sends (or if it closes) at or after the probe deadline, the single
+`Read` has already returned a timeout; both entry points then classify ASCII and write exactly one LF -/
+theorem late_is_silence (timeout delay : Nat) (reply : Option Bytes) (closes : Bool) (buf : Nat) (h : timeout ≤ delay) :
+    replyOf timeout delay reply closes buf = .timeout := by
+  have hn : ¬ delay < timeout := by omega
+  cases reply with
+  | none => simp [replyOf, hn]
+  | some b => simp [replyOf, hn]
+
+theorem late_is_silence_both (delay : Nat) (reply : Option Bytes) (closes : Bool) :
+    (probeTimeout ≤ delay → classifyClient (clientReply delay reply closes) = ⟨false, [lf], []⟩) ∧
+    (detectorTimeout ≤ delay → classifyDetector (detectorReply delay reply closes) = ⟨false, [lf], []⟩) := by
+  refine ⟨fun h => ?_, fun h => ?_⟩
+  · rw [clientReply, late_is_silence _ _ _ _ _ h]; rfl
+  · rw [detectorReply, late_is_silence _ _ _ _ _ h]; rfl
+
+theorem frame_length (p : Bytes) : (frame p).length = p.length + 4 := by
+  simp [frame, putLe32_length]; omega
+
+theorem replyOf_in_time (timeout delay : Nat) (b : Bytes) (closes : Bool) (buf : Nat) (h : delay < timeout)
+    (hne : b ≠ []) (hfit : b.length ≤ buf) : replyOf timeout delay (some b) closes buf = .bytes b := by
+  have he : b.isEmpty = false := by cases b <;> simp_all
+  simp [replyOf, h, he, List.take_of_length_le hfit]
+
+/-- **an acknowledge frame, however long (below the deadline) it takes, is binary**: any well-formed frame that fits
+the reply buffer, sent at any delay below the entry point's probe deadline, whether or not the panel closes
+afterwards: binary, nothing further written -/
+theorem ack_before_timeout_is_binary (p : Bytes) (h0 : 0 < p.length) (hfit : p.length + 4 ≤ Gen.clientProbeBuf)
+    (delay : Nat) (closes : Bool) :
+    (delay < probeTimeout → classifyClient (clientReply delay (some (frame p)) closes) = ⟨true, [], []⟩) ∧
+    (delay < detectorTimeout → classifyDetector (detectorReply delay (some (frame p)) closes) = ⟨true, [], []⟩) := by
+  have hb : Gen.detectorProbeBuf = Gen.clientProbeBuf := rfl
+  have hne : frame p ≠ [] := by intro h; have := frame_length p; rw [h] at this; simp at this
+  refine ⟨fun h => ?_, fun h => ?_⟩
+  · rw [clientReply, replyOf_in_time _ _ _ _ _ h hne (by rw [frame_length]; exact hfit)]
+    exact (ack_frame_is_binary_both p h0 hfit).1
+  · rw [detectorReply, replyOf_in_time _ _ _ _ _ h hne (by rw [frame_length, hb]; exact hfit)]
+    exact (ack_frame_is_binary_both p h0 hfit).2
+
+/-- below the smaller of the two deadlines both entry points' `Read` returns the same thing -/
+theorem entry_points_see_same_reply (delay : Nat) (reply : Option Bytes) (closes : Bool)
+    (h : delay < min probeTimeout detectorTimeout) : clientReply delay reply closes = detectorReply delay reply closes := by
+  have h1 : delay < probeTimeout := by omega
+  have h2 : delay < detectorTimeout := by omega
+  have hb : Gen.detectorProbeBuf = Gen.clientProbeBuf := rfl
+  cases reply with
+  | none => simp [clientReply, detectorReply, replyOf, h1, h2]
+  | some b => simp [clientReply, detectorReply, replyOf, h1, h2, hb]
+
+/-- the replies the property names -/
+inductive Named : Option Bytes → Prop
+  | silence : Named none
+  | frame (p : Bytes) (h0 : 0 < p.length) (hfit : p.length + 4 ≤ Gen.clientProbeBuf) : Named (some (frame p))
+  | rdy (t : Bytes) (hfit : (rdy ++ t).length ≤ Gen.clientProbeBuf) : Named (some (rdy ++ t))
+  | map (t : Bytes) (hfit : (mapEq ++ t).length ≤ Gen.clientProbeBuf) : Named (some (mapEq ++ t))
+
+/-- **client and detector agree** on every named reply that arrives before the smaller of the two probe deadlines
+(and on silence): same protocol verdict, same bytes written -/
+theorem entry_points_agree_before_min_timeout (delay : Nat) (reply : Option Bytes) (closes : Bool)
+    (h : delay < min probeTimeout detectorTimeout) (hn : Named reply) :
+    (classifyClient (clientReply delay reply closes)).binary = (classifyDetector (detectorReply delay reply closes)).binary ∧
+    (classifyClient (clientReply delay reply closes)).writes = (classifyDetector (detectorReply delay reply closes)).writes := by
+  have h1 : delay < probeTimeout := by omega
+  have h2 : delay < detectorTimeout := by omega
+  rw [← entry_points_see_same_reply delay reply closes h]
+  cases hn with
+  | silence =>
+    have : clientReply delay none closes = .timeout ∨ clientReply delay none closes = .error := by
+      cases closes <;> simp [clientReply, replyOf, h1]
+    rcases this with e | e <;> rw [e] <;> exact ⟨rfl, rfl⟩
+  | frame p h0 hfit =>
+    have hne : frame p ≠ [] := by intro h; have := frame_length p; rw [h] at this; simp at this
+    rw [clientReply, replyOf_in_time _ _ _ _ _ h1 hne (by rw [frame_length]; exact hfit)]
+    have := ack_frame_is_binary_both p h0 hfit
+    rw [this.1, this.2]; exact ⟨rfl, rfl⟩
+  | rdy t hfit =>
+    rw [clientReply, replyOf_in_time _ _ _ _ _ h1 (by simp [rdy]) hfit]
+    obtain ⟨a, b, c, d⟩ := silence_rdy_map_are_ascii_both.2.1 t hfit
+    rw [a, b, c, d]; exact ⟨rfl, rfl⟩
+  | map t hfit =>
+    rw [clientReply, replyOf_in_time _ _ _ _ _ h1 (by simp [mapEq]) hfit]
+    obtain ⟨a, b, c, d⟩ := silence_rdy_map_are_ascii_both.2.2 t hfit
+    rw [a, b, c, d]; exact ⟨rfl, rfl⟩
+
+/-- what a shorter deadline at one entry point does (for arbitrary deadlines `t1 ≤ delay < t2`): the same reply is
+silence for the one and data for the other -/
+theorem between_timeouts_disagree (t1 t2 delay : Nat) (b : Bytes) (closes : Bool) (buf : Nat) (hne : b ≠ [])
+    (hfit : b.length ≤ buf) (h1 : t1 ≤ delay) (h2 : delay < t2) :
+    replyOf t1 delay (some b) closes buf = .timeout ∧ replyOf t2 delay (some b) closes buf = .bytes b :=
+  ⟨late_is_silence _ _ _ _ _ h1, replyOf_in_time _ _ _ _ _ h2 hne hfit⟩
+
+/-! ### observations outside the domain -/
+
+/-- an acknowledge frame (`02 00 00 00 08 02`) that reaches the `Read` in two segments, the first of k bytes: the
+client classifies ASCII and writes a line feed, the detector classifies binary -/
+theorem split_ack_disagree (k : Nat) (h0 : 0 < k) (h6 : k < 6) :
+    classifyClient (.bytes ((frame [8, 2]).take k)) = ⟨false, [lf], []⟩ ∧
+    classifyDetector (.bytes ((frame [8, 2]).take k)) = ⟨true, [], []⟩ := by
+  have : k = 1 ∨ k = 2 ∨ k = 3 ∨ k = 4 ∨ k = 5 := by omega
+  rcases this with h | h | h | h | h <;> subst h <;> exact ⟨by decide, by decide⟩
+
+/-- the whole frame in one segment: binary for both -/
+example : classifyClient (.bytes ((frame [8, 2]).take 6)) = ⟨true, [], []⟩ ∧
+    classifyDetector (.bytes ((frame [8, 2]).take 6)) = ⟨true, [], []⟩ := by decide
 
 /-- where the entry points legitimately differ (not a class the property names): a short non-text reply -/
 theorem entry_points_differ_example :
@@ -256,8 +420,13 @@ theorem entry_points_differ_example :
 
 /-! non-vacuity -/
 example : classifyClient (.bytes (errorMsgPrefix ++ [66, 85, 83, 89] ++ 10 :: [66, 83, 89, 10])) = ⟨false, [lf], [66, 85, 83, 89]⟩ := by decide
+example : classifyClient (.bytes (errorMsgPrefix ++ [66, 85, 83, 89])) = ⟨false, [lf], [66, 85, 83, 89]⟩ := by decide
+example : (classifyClient (.bytes [66, 83, 89, 10])).errorMsg = [] := by decide
 example : (classifyClient (.bytes [2, 0, 0, 0, 8, 2])).binary = true := by decide
 example : (classifyClient (.bytes [9, 0, 0, 0, 8, 2])).binary = false := by decide
 example : classifyDetector (.bytes (mapEq ++ [49, 58, 50, 10])) = ⟨false, [lf], []⟩ := by decide
+example : classifyClient (clientReply 1999 (some (frame [8, 2])) false) = ⟨true, [], []⟩ := by decide
+example : classifyClient (clientReply 2000 (some (frame [8, 2])) false) = ⟨false, [lf], []⟩ := by decide
+example : Named (some (frame [8, 2])) := Named.frame [8, 2] (by decide) (by decide)
 
 end RawPanelVerif.C12
